@@ -8,14 +8,14 @@ pub mod c17;
 pub mod c18;
 pub mod c19;
 
-pub fn dispatch(ctx: &Ctx, replay: Option<&Value>, _rest: &[String]) -> i32 {
+pub fn dispatch(ctx: &Ctx, replay: Option<&Value>, rest: &[String]) -> i32 {
     match ctx.id.as_str() {
         "C14" => c14::run(ctx, replay),
         // C15 and C16 share one program catalogue; ctx.id decides which oracle is reported
         "C15" | "C16" => c15::run(ctx, replay),
         "C17" => c17::run(ctx, replay),
         "C18" => c18::run(ctx, replay),
-        "C19" => c19::run(ctx, replay),
+        "C19" => c19::run(ctx, replay, rest),
         other => {
             eprintln!("mvbin: unknown property {}", other);
             2
